@@ -604,6 +604,16 @@ impl Solver {
             }
         }
         self.seconds += t0.elapsed().as_secs_f64();
+        if let Ok(dir) = std::env::var("SYMX_TRACE") {
+            let dt = t0.elapsed().as_secs_f64();
+            eprintln!("[q] {:?} {:.3}s {}B nl={}", verdict, dt, body.len(), nonlinear);
+            if dt > 2.0 {
+                static N: std::sync::atomic::AtomicUsize = std::sync::atomic::AtomicUsize::new(0);
+                let k = N.fetch_add(1, std::sync::atomic::Ordering::SeqCst);
+                let _ = std::fs::create_dir_all(&dir);
+                let _ = std::fs::write(format!("{}/slow{}_{:?}_{:.1}s.smt2", dir, k, verdict, dt), format!("{}(check-sat)\n", body));
+            }
+        }
         (verdict, model)
     }
 
